@@ -7,7 +7,7 @@
 // Grid: 24 column definitions (every scalar type, nested paths, array indexes - also as the last step of a column with a DEFAULT -, CONVERT, DEFAULT, NOT NULL, an array column,
 // a regex column next to JSON columns) x 36 lines (nesting, insignificant whitespace around the document, wrong-typed leaves, numbers beyond i64 / f64, duplicate keys,
 // arrays, empty containers, non-JSON text, truncated JSON).
-// Also: tables with regex and JSON columns where no pattern matches the JSON line.
+// Also: tables with regex and JSON columns where no pattern matches the JSON line; a table of JSON columns only with DEFAULTs on lines that are no JSON.
 include!("verif_grid_common.rs");
 include!("verif_grid_qcommon.rs");
 use serde_json::Value as J;
@@ -130,6 +130,18 @@ fn verif_grid() {
             Outcome::Lines(rows, _) => { let want_rows: Vec<String> = want.iter().map(|s| s.to_string()).collect();
                 let same = rows.len() == want_rows.len() && rows.iter().zip(want_rows.iter()).all(|(a, b)| num_eq(&serde_json::from_str::<J>(a).unwrap(), &serde_json::from_str::<J>(b).unwrap()));
                 if same { Ok(()) } else { Err(format!("{} on the line {:?} printed {:?}, expected {:?}", def, line, rows, want_rows)) } }
+            other => Err(format!("{:?}", other)),
+        });
+    }
+    // a table of JSON columns only: a line that is no JSON document has no value anywhere, so a column with a DEFAULT takes it (and the row exists)
+    let def = "CREATE TABLE t({ .a } => a INT DEFAULT 7, { .s } => s TEXT, { .l[0] } => first REAL DEFAULT 0.5);";
+    for (i, (line, want)) in [("not json", Some(r#"{"a":7,"s":null,"first":0.5}"#)), ("", Some(r#"{"a":7,"s":null,"first":0.5}"#)), ("null", Some(r#"{"a":7,"s":null,"first":0.5}"#)), (r#"{"a": 1"#, Some(r#"{"a":7,"s":null,"first":0.5}"#)),
+                              ("{}", Some(r#"{"a":7,"s":null,"first":0.5}"#)), (r#"{"s": "x"}"#, Some(r#"{"a":7,"s":"x","first":0.5}"#)), (r#"{"a": 2, "l": [3]}"#, Some(r#"{"a":2,"s":null,"first":3.0}"#)),
+                              (r#"{"a": "2"}"#, Some(r#"{"a":null,"s":null,"first":0.5}"#))].iter().enumerate() {
+        g.case(&format!("json-only-default-{}", i), move || match q(def, "SELECT * FROM t", &[line, r#"{"a": 5, "s": "end"}"#]) {
+            Outcome::Lines(rows, _) => { let mut want_rows: Vec<String> = want.iter().map(|s| s.to_string()).collect(); want_rows.push(r#"{"a":5,"s":"end","first":0.5}"#.to_owned());
+                let same = rows.len() == want_rows.len() && rows.iter().zip(want_rows.iter()).all(|(a, b)| num_eq(&serde_json::from_str::<J>(a).unwrap(), &serde_json::from_str::<J>(b).unwrap()));
+                if same { Ok(()) } else { Err(format!("{} on the lines {:?} and a closing record printed {:?}, expected {:?}", def, line, rows, want_rows)) } }
             other => Err(format!("{:?}", other)),
         });
     }
